@@ -4,6 +4,7 @@
    -- that these are conParameters.{w,t1,t2,t3} -- is the trace correspondence with varied parameters). *)
 From Coq Require Import ZArith List Bool.
 From L60870 Require Import Apci.Reasm Apci.Frame Cs104.Server Cs104.ServerProofs.
+From L60870 Require Cs104.Client Cs104.ClientProofs.
 From RecordUpdate Require Import RecordSet.
 Import ListNotations RecordSetNotations.
 Local Open Scope Z_scope.
@@ -66,3 +67,50 @@ Proof.
   - destruct (st c =? STARTED); cbn in X; [destruct X as [X | X]; [discriminate | exact X] | exact X].
   - cbn in X. destruct X as [X | X]; [discriminate | exact X].
 Qed.
+
+(* ---- client role: Cs104/Client.v is the connection loop of cs104_connection.c (checkMessage, the w-acknowledgement,
+   handleTimeouts, exit), executed against the real client on every run (driver/d_client.ml vs harness/h_cs104c.c). *)
+Import Cs104.Client Cs104.ClientProofs.   (* from here on `running`, `cstate` ... are the client's *)
+
+(* w: once w received I-format APDUs are unacknowledged the S-format APDU with N(R) = V(R) is written in the same iteration *)
+Theorem C11_client_w : forall g now cm, cc_w g <= cunconf cm ->
+  cwack g now cm = confirm_outstanding now cm /\ snd (cwack g now cm) = [CTx (enc_s (cvr cm)) (cwmode cm =? 0)].
+Proof. exact client_w_rule. Qed.
+Theorem C11_client_w_not_before : forall g now cm, cunconf cm < cc_w g -> cstate cm <> ST_WAIT_STOP -> cwack g now cm = (cm, []).
+Proof. exact client_w_quiet. Qed.
+
+(* t2 *)
+Theorem C11_client_t2_fires : forall g now c, 0 < cunconf c -> clastconf c < now -> cc_t2 g * 1000 <= now - clastconf c ->
+  exists c1, ctmo_t2 g now c = (c1, [CTx (enc_s (cvr c)) (cwmode c =? 0)]) /\ cunconf c1 = 0 /\ ct2trig c1 = false /\ clastconf c1 = now.
+Proof. exact client_t2_fires. Qed.
+Theorem C11_client_t2_not_before : forall g now c, cunconf c = 0 \/ now - clastconf c < cc_t2 g * 1000 -> ctmo_t2 g now c = (c, []).
+Proof. exact client_t2_quiet. Qed.
+
+(* t1 for I-format APDUs: decided by the oldest unacknowledged one, t1 after its transmission and not before *)
+Theorem C11_client_t1 : forall g now c t r, ckb c = t :: r -> ctmo_t1 g now c = (t <? now) && (cc_t1 g * 1000 <=? now - t).
+Proof. exact client_t1_rule. Qed.
+Theorem C11_client_t1_nothing_sent : forall g now c, ckb c = [] -> ctmo_t1 g now c = false.
+Proof. exact client_t1_empty. Qed.
+
+(* t3: TESTFR act after t3 without reception, supervised by t1; closed when it stays unanswered, not before *)
+Theorem C11_client_t3_fires : forall g now c, ctmo_u now c = false -> cnt3 c < now -> couttest c <= 2 ->
+  exists c1, ctmo_t3 g now c = (c1, true, [CTx (enc_u 67) (cwmode c =? 0)]) /\ cumt c1 = now + cc_t1 g * 1000 /\
+             cnt3 c1 = now + cc_t3 g * 1000 /\ couttest c1 = couttest c + 1.
+Proof. exact client_t3_sends_testfr. Qed.
+Theorem C11_client_t3_not_before : forall g now c, now <= cnt3 c -> ctmo_t3 g now c = (c, true, []).
+Proof. exact client_t3_quiet. Qed.
+Theorem C11_client_testfr_t1 : forall g now c, cumt c <> 0 -> cumt c < now -> chandle_timeouts g now c = (c, false, []).
+Proof. exact client_testfr_t1_closes. Qed.
+Theorem C11_client_testfr_t1_not_before : forall now c, now <= cumt c -> ctmo_u now c = false.
+Proof. exact client_testfr_t1_not_before. Qed.
+
+(* acknowledge before stopping data transfer / closing on its own initiative *)
+Theorem C11_client_ack_before_stop : forall now c, running c = true ->
+  snd (cstopdt now c) = [CTx (enc_s (cvr c)) (cwmode c =? 0); CTx (enc_u 19) (cwmode c =? 0)].
+Proof. exact client_stopdt_acks_first. Qed.
+Theorem C11_client_ack_before_close : forall now c, 0 < cunconf c -> snd (cexit now c) = [CTx (enc_s (cvr c)) (cwmode c =? 0); CEv 1].
+Proof. exact client_exit_acks. Qed.
+
+(* the configured k is the one in force on every connection (and the window never exceeds it: C04_client_window_bound) *)
+Theorem C11_client_k_in_force : forall g now c, ckmax (fst (cconnect g now c true)) = cc_k g /\ ckb (fst (cconnect g now c true)) = [].
+Proof. exact client_connect_uses_k. Qed.
